@@ -23,6 +23,8 @@ salts = st.one_of(
 )
 
 hostbits = st.one_of(st.sampled_from([0, 8, 32, 1, 31, 16, 24]), st.integers(0, 32))
+# library callers may keep up to the whole IPv6 address (the command line stops at 32 for both families)
+hostbits6 = st.one_of(hostbits, hostbits, st.sampled_from([64, 128, 127, 48, 96, 33]), st.integers(0, 128))
 
 # ---------------------------------------------------------------- networks
 
@@ -106,7 +108,7 @@ def config(draw, networks="maybe", modes=("default", "empty", "list", "nested"))
                 st.just(list(RFC1918)),
             )
         )
-    return {"salt": draw(salts), "B4": draw(hostbits), "B6": draw(hostbits), "prefixes": prefixes, "networks": nets, "mode": mode}
+    return {"salt": draw(salts), "B4": draw(hostbits), "B6": draw(hostbits6), "prefixes": prefixes, "networks": nets, "mode": mode}
 
 
 def effective_prefixes(cfg):
